@@ -6,4 +6,10 @@ META = {
   "note": "Trusts the reference model (60 lines, 64-bit arithmetic) and rapid's generators; sets built from the SearchRes marker are outside the domain.",
   "technique": "property-based testing (rapid) with reference model + exhaustive small-scope enumeration",
  },
+ "C16": {
+  "text": "Differential and round-trip search against an independent RFC 3501 5.1.3 reference codec: random valid UTF-8 to length 300, exhaustive small scope for both encoder and decoder alphabets, structured hostile decoder inputs (surrogates, ASCII in base64, odd halves, back-to-back and unterminated shifts), and every case re-run through the raw streaming Transformer under drawn source/destination buffer sizes. Sampling plus bounded exhaustive enumeration, not proof.",
+  "design_ref": "DESIGN.md 3/C16",
+  "note": "Trusts the 90-line reference codec and the Go standard library's base64/utf16; non-canonical base64 tail bits are not judged.",
+  "technique": "property-based testing (rapid) + exhaustive enumeration, differential against reference codec, chunking metamorphic relation",
+ },
 }
